@@ -77,6 +77,13 @@ def gen_cases(rng, tier):
         code = rng.choice('hHlLiIqQ')
         v = rval(rng, code)
         yield {'op': 'adopt', 'code': code, 'pre': rng.choice('<=@'), 'v': v, 'how': rng.choice(['kw', 'setattr', 'array']), 'edit': rng.choice(['byteswap', 'invert', 'append', 'reverse'])}
+    # Array.byteswap: every item byte-reversed (= the same values in the other endianness), the trailing bits - however many, up to one bit short
+    # of another item - untouched; twice is the identity
+    for _ in range(60 if tier == 'quick' else 900):
+        code = rng.choice('hHlLiIqQefd')
+        w = 8 * SIZES[code]
+        yield {'op': 'array_byteswap', 'code': code, 'pre': rng.choice('<>'), 'vals': [rval(rng, code) for _ in range(rng.randrange(0, 5))],
+               'trail': rand_bits(rng, rng.choice([0, 0, 1, 7, 8, 9, w - 8, w - 7, w - 1, w // 2 + 1]), 'rand')}
     for _ in range(N // 2):
         nb = rng.randrange(1, 10)
         yield {'op': 'endian', 'bits': rand_bits(rng, 8 * nb), 'fmt': rng.choice([None, 0, 1, 2, nb, [1, 2], 'h', '2h', 'q', 'bh']), 'cls': rng.choice(MUTABLE)}
@@ -132,6 +139,15 @@ def run_impl(c):
                     res[tc] = ['err', exn_name(e), aa.itemsize]
             out['from_array'] = res
             return out
+        return attempt(f)
+    if op == 'array_byteswap':
+        def f():
+            from bitstring import Bits
+            a = Array(c['pre'] + c['code'], c['vals'], trailing_bits=Bits(bin=c['trail']) if c['trail'] else None)
+            before = a.data.bin
+            a.byteswap(); once = a.data.bin
+            a.byteswap(); twice = a.data.bin
+            return [before, once, twice]
         return attempt(f)
     if op == 'endian':
         s = cls_of(c['cls'])(bin=c['bits'])
@@ -198,6 +214,18 @@ def oracle(c, obs):
             if match and tc == c['code'] and r[0] != 'ok': return f"Array({c['code']!r}).extend(array.array({tc!r})) (itemsize {r[2]}) was refused: {r}"
             if match and r[0] == 'ok' and r[1] not in ([1, 2], [fhex(1.0), fhex(2.0)]): return f"Array({c['code']!r}).extend(array.array({tc!r}, [1, 2])) read back {r[1]}"
             if not match and r[0] == 'ok': return f"Array({c['code']!r}) accepted array.array({tc!r}) of itemsize {r[2]}: {r}"
+        return None
+    if op == 'array_byteswap':
+        if obs[0] != 'ok': return f"array_byteswap {c} raised {obs}"
+        before, once, twice = obs[1]
+        try:
+            other = {'<': '>', '>': '<'}[c['pre']]
+            here = ''.join(format(b, '08b') for b in struct.pack(c['pre'] + str(len(c['vals'])) + c['code'], *c['vals']))
+            there = ''.join(format(b, '08b') for b in struct.pack(other + str(len(c['vals'])) + c['code'], *c['vals']))
+        except (OverflowError, struct.error): return None
+        if before != here + c['trail']: return f"Array({c['pre'] + c['code']!r}, {c['vals']}, trailing {c['trail']!r}).data is {before}, struct gives {here} + trailing"
+        if once != there + c['trail']: return f"Array({c['pre'] + c['code']!r}, {c['vals']}, trailing_bits={c['trail']!r}).byteswap() gave {once}; the other endianness of the same values is {there}, trailing bits {c['trail']!r} unchanged"
+        if twice != before: return f"Array.byteswap() twice is not the identity: {before} -> {twice}"
         return None
     if op == 'endian':
         if obs[0] != 'ok': return f"endian {c} raised {obs}"
